@@ -17,6 +17,7 @@ import (
 	"os"
 	"os/exec"
 	"strconv"
+	"strings"
 	"sync/atomic"
 	"syscall"
 	"time"
@@ -236,6 +237,18 @@ type Child struct {
 
 // Start launches a node child on the given directories. extraEnv e.g. "KILL_AT=7".
 func Start(dbDir, raftDir string, extraEnv ...string) (*Child, error) {
+	// the raft transport binds a port that was probed free a moment earlier; on a busy machine another
+	// process can take it in between: that is the sandbox, not the server - try again
+	for i := 0; ; i++ {
+		c, err := start1(dbDir, raftDir, extraEnv...)
+		if err != nil && i < 6 && strings.Contains(err.Error(), "address already in use") {
+			continue
+		}
+		return c, err
+	}
+}
+
+func start1(dbDir, raftDir string, extraEnv ...string) (*Child, error) {
 	self := os.Getenv("VERIF_SELF")
 	if self == "" {
 		self, _ = os.Executable()
